@@ -227,6 +227,7 @@ type Sim struct {
 	doneFn    func() bool
 	gstFn     func()
 	probeFn   func()
+	cur       *Node // node whose library instance is executing a call right now
 	heightFn  func(h uint32)
 	noDone    bool
 }
@@ -354,7 +355,11 @@ func (s *Sim) Run() {
 			}
 			return p
 		case 2:
-			return s.tape.Perm(SMap, n)
+			st := SMap
+			if s.cur != nil {
+				st = s.cur.stream(SMap)
+			}
+			return s.tape.Perm(st, n)
 		}
 		return nil
 	}
@@ -406,7 +411,7 @@ func (s *Sim) done() bool {
 	}
 	any := false
 	for _, n := range s.nodes {
-		if !n.honest {
+		if !n.honest || n.special {
 			continue
 		}
 		any = true
@@ -472,7 +477,7 @@ func (s *Sim) dispatch(ev *Event) {
 	switch ev.Kind {
 	case EvBoot:
 		n := s.nodes[ev.Node]
-		if !n.up {
+		if !n.up && !n.neverBoot {
 			n.boot()
 		}
 	case EvRestart:
